@@ -196,8 +196,12 @@ def check_eof(c, repo):
         callee_last(k) == 'error' and k.args and is_name(k.args[0], hs[0].name) for st in hs[0].body for k in calls_in(st))
     c.check(ok, f, hs[0] if hs else t, 'EOF not listed: the EOF exception is delivered to the awaiting caller', kind='ast', tag='eof-error')
     iv = ek[0][0].ast.targets[0].id if isinstance(ek[0][0].ast, ast.Assign) else None
-    ok = bool(t.orelse) and iv and any(callee_last(k) == 'found' and k.args and is_name(k.args[0], iv) for st in t.orelse for k in calls_in(st))
-    c.check(ok, f, t, 'EOF listed: its index resolves the future', kind='ast', tag='eof-found')
+    fk = cfg_nodes_with_call(f, lambda k: callee_last(k) == 'found' and k.args and iv is not None and is_name(k.args[0], iv))
+    # found(index) runs exactly when eof() returned normally: after it on the normal edges, never from the handler
+    hn = [n for n in g.nodes if n.kind == 'except']
+    ok = len(fk) == 1 and g.dominated_by(fk[0][0], {ek[0][0]}, skip_labels=('exc',))[0] and \
+        g.must_pass(ek[0][0], {g.exit}, {fk[0][0]}, skip_labels=('exc',))[0] and all(g.path(h_, {fk[0][0]}, skip_labels=()) is None for h_ in hn)
+    c.check(ok, f, t, 'EOF listed: its index resolves the future', kind='path', tag='eof-found')
     f2 = repo.func(MOD + ':PatternWaiter.connection_lost')
     g2 = f2.cfg
     p = f2.params[1]
